@@ -25,6 +25,7 @@ import (
 const twigPath = "github.com/semihalev/twig"
 
 type World struct {
+	confinedMemo  map[string]bool
 	loadersMemo   map[*ssa.Function]bool
 	loadParts     map[*ssa.Function]bool
 	entryFuncMemo map[*ssa.Function][3]interface{}
